@@ -117,7 +117,9 @@ func (l *ctlListener) isClosed() bool {
 	}
 }
 
-func (l *ctlListener) Addr() net.Addr { return &net.UnixAddr{Name: fmt.Sprintf("@ctl-%d", l.id), Net: "unix"} }
+func (l *ctlListener) Addr() net.Addr {
+	return &net.UnixAddr{Name: fmt.Sprintf("@ctl-%d", l.id), Net: "unix"}
+}
 
 func (l *ctlListener) SetDeadline(t time.Time) error {
 	l.log.Ev("SetDeadline", tr.M{"id": l.id})
@@ -226,19 +228,25 @@ type svcClient struct {
 }
 
 type svcRunner struct {
-	log     *tr.Log
-	svc     *varlink.Service
-	ls      []*ctlListener
-	cur     *ctlListener
-	clients map[string]*svcClient
-	served  chan string // return value of the serving call
-	serving bool
-	cancel  context.CancelFunc
-	nextID  int
-	nsvc    int
-	nreg    int
-	ident   [4]string
-	descs   map[string]string
+	listen     bool   // Listen path: real listeners, Service.Listen's own copy of the accept loop
+	laddr      string // address of the current Listen
+	pendingL   bool
+	nlisten    int
+	log        *tr.Log
+	svc        *varlink.Service
+	ls         []*ctlListener
+	cur        *ctlListener
+	clients    map[string]*svcClient
+	served     chan string // return value of the serving call
+	serving    bool
+	cancel     context.CancelFunc
+	nextID     int
+	nsvc       int
+	nreg       int
+	lastActive int64
+	abort      bool
+	ident      [4]string
+	descs      map[string]string
 }
 
 func (r *svcRunner) settle() {
@@ -258,13 +266,24 @@ func (r *svcRunner) settle() {
 			}
 		}
 		for _, c := range r.clients {
-			if c.state == "delivered" && atomic.LoadInt32(&c.srv.closed) == 0 && atomic.LoadInt32(&c.srv.inRead) == 0 {
+			if c.srv != nil && c.state == "delivered" && atomic.LoadInt32(&c.srv.closed) == 0 && atomic.LoadInt32(&c.srv.inRead) == 0 {
 				parked = false
+			}
+		}
+		if r.listen {
+			// nothing on the service side is observable: "quiet" = the connection count stopped moving
+			n := r.svc.VerifActiveConns()
+			if n != r.lastActive {
+				r.lastActive = n
+				parked = false
+			}
+			if stable < 12 {
+				time.Sleep(150 * time.Microsecond)
 			}
 		}
 		if now == last && parked {
 			stable++
-			if stable >= 6 {
+			if stable >= 6 && !r.listen || stable >= 14 {
 				return
 			}
 		} else {
@@ -303,7 +322,58 @@ func (r *svcRunner) waitFlag(f *int32, what string) bool {
 	return true
 }
 
+// the Listen path: no harness-owned listener, connections are real sockets
+func (r *svcRunner) doListenPath(op sOp) bool {
+	switch op.Op {
+	case "Install":
+		r.pendingL = true // Listen binds by itself
+		return true
+	case "Serve":
+		if !r.pendingL {
+			return false // a serving call without anything bound: same as on the other path
+		}
+		r.pendingL = false
+		r.nlisten++
+		r.laddr = fmt.Sprintf("unix:@verif-svcL-%d-%d-%d", os.Getpid(), r.nsvc, r.nlisten)
+		ctx, cancel := context.WithCancel(context.Background())
+		r.cancel = cancel
+		r.log.Ev("ListenStart", tr.M{"n": r.nlisten})
+		r.serving = true
+		served := make(chan string, 1)
+		r.served = served
+		addr := r.laddr
+		go func() { served <- classifyRet(r.svc.Listen(ctx, addr, 0)) }()
+		return true
+	case "Connect":
+		if r.laddr == "" {
+			r.log.Ev("OPFAIL", tr.M{"why": "Connect before any Listen"})
+			return true
+		}
+		c, err := net.DialTimeout("unix", r.laddr[len("unix:"):], time.Second)
+		if err != nil {
+			r.log.Ev("ConnectRefused", tr.M{"c": op.C, "id": r.nlisten})
+			return true
+		}
+		r.clients[op.C] = &svcClient{c: op.C, cli: c, lid: r.nlisten, state: "delivered", reader: bufio.NewReader(c)}
+		r.log.Ev("Connect", tr.M{"c": op.C, "id": r.nlisten})
+		return true
+	case "Deliver":
+		return true // the kernel and the accept loop do it
+	}
+	return false
+}
+
 func (r *svcRunner) do(op sOp) {
+	if op.Op == "Serve" && r.serving {
+		// the real execution is still serving (e.g. draining a connection the model's schedule never had
+		// accepted): a second serving call on the same object is not something the schedule meant
+		r.abort = true
+		return
+	}
+	if r.listen && r.doListenPath(op) {
+		bump()
+		return
+	}
 	switch op.Op {
 	case "Install":
 		r.nextID++
@@ -502,8 +572,13 @@ func (r *svcRunner) runSchedule(ops []sOp) {
 	r.clients = map[string]*svcClient{}
 	r.serving = false
 	r.nextID = 0
+	r.pendingL, r.laddr, r.nlisten = false, "", 0
+	r.abort = false
 	for _, op := range ops {
 		r.do(op)
+		if r.abort {
+			break
+		}
 		r.settle()
 	}
 	// cleanup (logged like any other action): open the gate, stop serving, end every delivered connection
@@ -532,7 +607,9 @@ func (r *svcRunner) runSchedule(ops []sOp) {
 	for _, c := range r.clients {
 		if c.state == "queued" {
 			c.cli.Close()
-			c.srv.Conn.Close()
+			if c.srv != nil {
+				c.srv.Conn.Close()
+			}
 		}
 	}
 	r.log.Ev("Active", tr.M{"n": svc.VerifActiveConns()})
@@ -549,6 +626,7 @@ func cmdService(args []string) int {
 	scenFile := fs.String("scen", "", "NDJSON schedules (one JSON array of ops per line)")
 	out := fs.String("out", "trace.ndjson", "trace output")
 	fs.Int64("seed", 1, "unused")
+	listen := fs.Bool("listen", false, "Listen path: Install+Serve becomes Service.Listen on a real abstract unix listener")
 	fs.Parse(args)
 	log, err := tr.Open(*out)
 	if err != nil {
@@ -564,7 +642,7 @@ func cmdService(args []string) int {
 	scn := bufio.NewScanner(f)
 	scn.Buffer(make([]byte, 1<<20), 1<<26)
 	n := 0
-	r := &svcRunner{log: log}
+	r := &svcRunner{log: log, listen: *listen}
 	for scn.Scan() {
 		line := bytes.TrimSpace(scn.Bytes())
 		if len(line) == 0 {
